@@ -362,7 +362,7 @@ Maintenance ==
 OpStart ==
   /\ Len(ops) < MaxOps
   /\ \E e \in {n \in NodesOf(s.lay) : s.st[n] = "Active"}, k \in KeysOf(s.lay), kind \in OpKinds :
-       ops' = Append(ops, [kind |-> kind, k |-> k, arg |-> Len(ops) + 1, at |-> e, hops |-> 0, st |-> "run", r |-> <<"none", 0, {}>>])
+       ops' = Append(ops, [kind |-> kind, k |-> k, arg |-> Len(ops) + 1, at |-> e, hops |-> 0, held |-> {}, st |-> "run", r |-> <<"none", 0, {}>>])
   /\ UNCHANGED s
 
 OpStep(i) ==
@@ -373,9 +373,10 @@ OpStep(i) ==
           ops' = [ops EXCEPT ![i].st = IF s.st[a] = "Inactive" THEN "notstarted" ELSE "stale"] /\ UNCHANGED s
      ELSE \E r \in LookupSet(s, a, k) :
           IF r # a THEN ops' = [ops EXCEPT ![i].at = r, ![i].hops = o.hops + 1] /\ UNCHANGED s
+          ELSE IF a \in o.held THEN ops' = [ops EXCEPT ![i].st = "relock"] /\ UNCHANGED s     \* second surrogateMu.RLock of one call chain
           ELSE LET d == LocalDecision(s, a, k) IN
                IF d = "stale" THEN ops' = [ops EXCEPT ![i].st = "stale"] /\ UNCHANGED s
-               ELSE IF d = "fwd" THEN ops' = [ops EXCEPT ![i].at = s.sur[a], ![i].hops = o.hops + 1] /\ UNCHANGED s
+               ELSE IF d = "fwd" THEN ops' = [ops EXCEPT ![i].at = s.sur[a], ![i].hops = o.hops + 1, ![i].held = @ \cup {a}] /\ UNCHANGED s
                ELSE /\ s' = LocalAccessF(s, a, k, o.kind, o.arg)
                     /\ ops' = [ops EXCEPT ![i].st = "ok", ![i].r = Apply(s.store[a][k], o.kind, o.arg)[2]]
 
@@ -399,4 +400,7 @@ CONSTANT Goal
 InvGoalUnreached == ~(Goal \in s.cov)          \* coverage goal: its "counterexample" is a witness behaviour
 (* C04: a read linearizes at its local access, where it must see the last linearized write: tag "staleread" in bad *)
 InvNoNonRetryable == \A i \in 1..Len(ops) : ops[i].st \notin {"notstarted", "looped"}
+(* the forward to the surrogate is made while surrogateMu is read-locked; if the call chain returns to the same node it read-locks
+   again: with a writer (RequestToJoin, Notify, Leave, Import) queued in between, both wait for ever *)
+InvNoRelock == \A i \in 1..Len(ops) : ops[i].st # "relock"
 ===============================================================================
